@@ -22,6 +22,10 @@ REPO = os.environ.get('SX_REPO', '/repo')
 _isinstance = builtins.isinstance
 
 
+class ConfigTimeout(BaseException):
+    pass
+
+
 # ------------------------------------------------------------------------------------------------ inputs
 
 class Inputs:
@@ -302,6 +306,8 @@ def check_config(prop, cfg, ctx, validate=True, want_smt2=0):
                                            pc_size=sum(len(str(c)) for c in path.pc[:5]), outcome=_short(ob, 200)))
     except PathCap as e:
         rec['errors'].append('path cap: ' + str(e))
+    except ConfigTimeout as e:
+        rec['errors'].append('timeout: ' + str(e))
     except Exception as e:
         rec['errors'].append('exploration: %s\n%s' % (repr(e), traceback.format_exc()[-2000:]))
     rec['solver_queries'] = ex.stats['solver_queries'] - q0
@@ -315,7 +321,7 @@ def check_config(prop, cfg, ctx, validate=True, want_smt2=0):
 def _witness(ctx, inp, path, dbl):
     m = path.model
     if m is None or (dbl and not inp.all_doubles(inp.concretise(m))):
-        r, m2 = ctx.ex.check_in_path(path, *dbl)
+        r, m2 = ctx.ex.check_in_path(path, *dbl, exact_timeout_ms=3000)
         if r != 'sat':
             return None
         m = m2
